@@ -25,7 +25,11 @@ ParaVecs == {[k |-> "write", paras |-> <<P1(v)>>] : v \in Values}
 \* writer may issue, through the Encoder and through WriteTo
 FaultVecs == {[k |-> "write_fault", paras |-> <<P2(<<111, 110, 101>>, <<97>>), P2(<<116, 119, 111>>, <<98, LF, 99>>), P2(<<116, 104, 114, 101, 101>>, <<100>>)>>,
                fail_at |-> n, via |-> v] : n \in 1..12, v \in {"encoder", "writeto"}}
+\* structs with a required and an optional field through the Encoder: every value is one paragraph, "Name" always
+\* written (even empty), "Comment" only when it has text
+EncVals == {[Name |-> n, Comment |-> c] : n \in {<<>>, <<111, 110, 101>>}, c \in {<<>>, <<99>>}}
+EncVecs == {[k |-> "enc_structs", values |-> vs] : vs \in UNION {[1..n -> EncVals] : n \in 1..3}}
 ASSUME Emit(CASE Mode = "tokdocs"  -> SetToSeq({[k |-> Kind, doc |-> d] : d \in TokDocs})
               [] Mode = "bytedocs" -> SetToSeq({[k |-> Kind, doc |-> d] : d \in ByteDocs})
-              [] Mode = "paras"    -> SetToSeq(ParaVecs) \o SetToSeq(FaultVecs))
+              [] Mode = "paras"    -> SetToSeq(ParaVecs) \o SetToSeq(FaultVecs) \o SetToSeq(EncVecs))
 =============================================================================
